@@ -1,0 +1,22 @@
+//! Scheduling points for the verification harness (compiled only with `--cfg jsonpath_rust_verif`).
+//!
+//! `point(id)` is called at the entry of every evaluation step; it does nothing until a hook is
+//! installed with `set_hook`. The harness uses the hook to hand control between threads that share one
+//! parsed query and one document, so that every interleaving of evaluation steps can be explored.
+
+use std::sync::atomic::{AtomicUsize, Ordering};
+
+static HOOK: AtomicUsize = AtomicUsize::new(0);
+
+pub fn set_hook(hook: Option<fn(u32)>) {
+    HOOK.store(hook.map(|f| f as usize).unwrap_or(0), Ordering::SeqCst);
+}
+
+#[inline]
+pub fn point(id: u32) {
+    let h = HOOK.load(Ordering::Relaxed);
+    if h != 0 {
+        let f: fn(u32) = unsafe { std::mem::transmute(h) };
+        f(id);
+    }
+}
